@@ -167,6 +167,25 @@ def translate_cache_clear(path, repo_rel):
     return text, {'source': repo_rel, 'lines': [cc.lineno, cc.end_lineno], 'sha256': sha, 'coq': 'iter_clears_at_start'}
 
 
+def check_add_fragment_shape(path, repo_rel):
+    """Molecule.add_fragment: `if use_hash: if self == fragment: ...` else `for f in self.fragments: if f == fragment: ...`
+    (the model's match_grouped / match_flat); anything else is refused."""
+    src = open(path).read()
+    fn = py2coq.find_function(ast.parse(src), 'Molecule.add_fragment')
+    ifs = [n for n in fn.body if isinstance(n, ast.If) and ast.unparse(n.test) == 'use_hash']
+    if len(ifs) != 1:
+        raise Untranslatable('Molecule.add_fragment: expected one `if use_hash:`')
+    n = ifs[0]
+    ok = (len(n.body) == 1 and isinstance(n.body[0], ast.If) and ast.unparse(n.body[0].test) == 'self == fragment'
+          and len(n.orelse) == 1 and isinstance(n.orelse[0], ast.For) and ast.unparse(n.orelse[0].iter) == 'self.fragments'
+          and ast.unparse(n.orelse[0].target) == 'f' and len(n.orelse[0].body) == 1 and isinstance(n.orelse[0].body[0], ast.If)
+          and ast.unparse(n.orelse[0].body[0].test) == 'f == fragment' and not n.orelse[0].orelse)
+    if not ok:
+        raise Untranslatable('Molecule.add_fragment: the use_hash / member scan structure changed (line %d)' % n.lineno)
+    sha = hashlib.sha256(ast.unparse(n).encode()).hexdigest()
+    return {'source': repo_rel, 'lines': [n.lineno, n.end_lineno], 'sha256': sha, 'coq': '(shape check) match_flat/match_grouped'}
+
+
 def regen_eject(out=None, repo=None):
     out = out or os.path.join(fw.COQ, 'Gen', 'GenEject.v')
     try:
@@ -206,6 +225,12 @@ def _regen_eject(out, repo):
         'fragment_eq', '(s_span_ok o_span_ok umi_ok : bool) (radius s_sample s_strand s_chrom s_start s_end '
                        'o_sample o_strand o_chrom o_start o_end : Z)', FRAG)
     chunks.append(t); meta.append(m)
+    t, m = translate_guard_chain(
+        os.path.join(repo, MOL), 'Molecule.has_valid_span',
+        {'self.spanStart is not None': 'has_start', 'self.spanEnd is not None': 'has_end'},
+        'mol_has_valid_span', '(has_start has_end : bool)', MOL)
+    chunks.append(t); meta.append(m)
+    meta.append(check_add_fragment_shape(os.path.join(repo, MOL), MOL))
     t, m = translate_guard_chain(
         os.path.join(repo, FRAG), 'Fragment.umi_eq',
         {'self.umi == other.umi': 'umi_same', 'self.umi_hamming_distance': 'hd',
@@ -339,7 +364,7 @@ class Prop(fw.PropBase):
             lens = [1, 2, 5, cache // 4, cache // 2, cache // 2 + 3, cache - 1]
         gaps = [0, 0, 0, 0, 1, 2, 5, cache // 2 - 2, cache // 2, cache // 2 + 2, cache // 2 + 7, cache, 2 * cache]
         frags = []
-        pos, chrom, nsm = 1000, 0, rng.choice([1, 2, 3])
+        pos, chrom, nsm = rng.choice([0, 1000]), 0, rng.choice([1, 2, 3])   # 0 = first base of the contig
         umis = rng.sample(UMIS, rng.choice([1, 2, 3]))
         for i in range(n):
             if frags and rng.random() < 0.12:
@@ -394,7 +419,7 @@ class Prop(fw.PropBase):
         cache = rng.choice([40, 100])
         radius = rng.choice([0, 0, 2])
         L = cache // 2 - radius
-        s0 = 1000
+        s0 = rng.choice([0, 1000])
         mk = lambda st, en, rx: {'chrom': 0, 'sm': 0, 'rx': rx, 'qcfail': False, 'r1': [st, max(1, en - st), False], 'r2': None}
         lens = [2, 5, max(2, L // 2), L]
         members = [(s0, s0 + rng.choice(lens))]
@@ -500,10 +525,38 @@ class Prop(fw.PropBase):
         base = {'cache': cache, 'radius': 0, 'hd': 0, 'yield_invalid': False}
         return {'frags': frs, 'cls': 'CHIC', 'cfgs': self.all_schedules(base, len(frs))}
 
+    def gen_chain(self, rng):
+        """mixed-length chains (same start OR same end is not transitive): a short first fragment, a longer copy with the
+        same start, fragments sharing only their END with the longer one, copies sharing the start of those ...;
+        optionally at coordinate 0 and with an unrelated fragment in between"""
+        cache = rng.choice([40, 100])
+        half = cache // 2
+        s0 = rng.choice([0, 0, 1000])
+        mk = lambda st, en, rx='AAA': {'chrom': 0, 'sm': 0, 'rx': rx, 'qcfail': False, 'r1': [st, max(1, en - st), False], 'r2': None}
+        a = rng.choice([2, 3, 5])
+        Lg = rng.choice([half, half - 2, half // 2 + a])
+        frs = [mk(s0, s0 + a), mk(s0, s0 + Lg)]
+        if rng.random() < 0.3:
+            frs.reverse()
+        if rng.random() < 0.3:
+            frs.append(mk(s0, s0 + a))
+        if rng.random() < 0.4:
+            frs.append(mk(s0 + 1, s0 + 1 + rng.choice([1, 2]), 'CCC'))
+        k = rng.randint(1, Lg - 1)
+        frs.append(mk(s0 + k, s0 + Lg))                   # shares only the END of the longer fragment
+        if rng.random() < 0.5:
+            frs.append(mk(s0 + k, s0 + k + rng.choice([1, 2, Lg])))   # shares only the START of the previous one
+        if rng.random() < 0.5:
+            k2 = rng.randint(k, Lg - 1)
+            frs.append(mk(s0 + k2, s0 + Lg))
+        frs.sort(key=lambda f: f['r1'][0])
+        base = {'cache': cache, 'radius': 0, 'hd': 0, 'yield_invalid': False}
+        return {'frags': frs, 'cls': rng.choice(['Fragment', 'HashedFragment']), 'cfgs': self.all_schedules(base, len(frs))}
+
     def directed(self, rng, n):
         out = []
         for k in range(n):
-            out.append([self.gen_scenario, self.gen_nonprefix, self.gen_long_insert, self.gen_chic][k % 4](rng))
+            out.append([self.gen_scenario, self.gen_nonprefix, self.gen_long_insert, self.gen_chic, self.gen_chain][k % 5](rng))
         return out
 
     @staticmethod
@@ -546,7 +599,7 @@ class Prop(fw.PropBase):
         out = []
         for n in range(1, nmax + 1):
             for combo in itertools.product(alpha, repeat=n):
-                pos, frags = 100, []
+                pos, frags = 0, []        # the first fragment can start at coordinate 0
                 for g, ln, u in combo:
                     pos += g
                     frags.append({'chrom': 0, 'sm': 0, 'rx': u, 'qcfail': False, 'r1': [pos, ln, False], 'r2': None})
@@ -560,7 +613,7 @@ class Prop(fw.PropBase):
         out = []
         for n in range(2, nmax + 1):
             for combo in itertools.product([(g, e) for g in (0, 3, 23) for e in ('short', 'long', 'first')], repeat=n):
-                pos, frags, first_end = 100, [], None
+                pos, frags, first_end = 0, [], None
                 for g, e in combo:
                     pos += g
                     end = pos + 2 if e == 'short' else pos + 20 if e == 'long' else \
@@ -581,7 +634,7 @@ class Prop(fw.PropBase):
             n = self.rng.choice([2, 3, 4, 5, 6, 8, 10] if quick else [2, 3, 4, 5, 6, 7, 8, 10, 14, 20])
             regime = ['pre', 'pre', 'prelag', 'wild'][k % 4]
             out.append(self.gen_case(self.rng, n, regime))
-        out += self.directed(self.rng, 320 if quick else 4000)
+        out += self.directed(self.rng, 400 if quick else 5000)
         for c in out:
             self.add_histories(c, self.rng, full=True)
         ex = self.small_exhaustive(3 if quick else 4) + self.small_exhaustive_rel(3 if quick else 4)
@@ -754,6 +807,76 @@ def case_cfg_index(case, cfg):
 
 
 # ----------------------------------------------------------------------------- search (specification on the implementation)
+def match_relation(case, absf, cfg):
+    """pairwise Fragment.__eq__ (exact UMIs) restated on the oracle spans, or the site key for CHICFragment; None when the
+    harness does not restate it (umi_hamming_distance > 0)"""
+    if cfg['hd'] != 0:
+        return None
+    if case['cls'] == 'CHIC':
+        return lambda f, h: f[8] == h[8] and f[7] == h[7]
+    r = cfg['radius']
+
+    def E(f, h):
+        (fc, fs_, fe), (hc, hs, he) = _view(f, True), _view(h, True)
+        return (f[2] == h[2] and f[3] == h[3] and fc == hc and min(abs(fs_ - hs), abs(fe - he)) <= r and f[7] == h[7])
+    return E
+
+
+def match_classes(vs, E):
+    """connected components of E, and whether E is an equivalence on vs (every two members of a component match)"""
+    comp = []
+    for f in vs:
+        hit = [c for c in comp if any(E(x, f) for x in c)]
+        merged = [f]
+        for c in hit:
+            merged = c + merged
+            comp.remove(c)
+        comp.append(sorted(merged, key=lambda x: x[0]))
+    transitive = all(E(x, y) for c in comp for x in c for y in c)
+    return comp, transitive
+
+
+def relation_violations(case, res):
+    """(a) when the pairwise match relation of the input is an equivalence (radius 0, exact UMIs, match implies equal
+    buffer key) grouping is unambiguous: never ejecting, pooling_method 0 and 1 must both produce exactly its classes;
+    the two methods may differ only when the relation is not transitive (member-by-member chaining vs comparison with
+    the molecule's aggregate span).  (b) pooling_method 0, any input: a fragment founds a new molecule only if it matches
+    no earlier fragment, and every other member matches an earlier member of its molecule."""
+    absf = res['abs']
+    out = []
+    for cfg, run in zip(case['cfgs'], res['runs']):
+        if cfg['every'] is not None or run['error'] is not None:
+            continue
+        E = match_relation(case, absf, cfg)
+        if E is None:
+            continue
+        vs = [f for f in absf if f[1]]
+        byid = {f[0]: f for f in absf}
+        mols = [m for m in partition(run) if all(byid[i][1] for i in m)]
+        if cfg['pooling'] == 0:
+            for m in mols:
+                first = byid[m[0]]
+                rel = [x[0] for x in vs if x[0] < first[0] and E(x, first)]
+                if rel:
+                    out.append(('pooling0-duplicate-split', 'pooling_method=0, never ejecting: read %d founded the molecule %r although '
+                                'it matches the earlier read(s) %r; molecules %r' % (first[0], list(m), rel, [list(x) for x in mols]), cfg))
+                    break
+                bad = [i for k, i in enumerate(m) if k > 0 and not any(E(byid[j], byid[i]) for j in m[:k])]
+                if bad:
+                    out.append(('pooling0-unrelated-joined', 'pooling_method=0, never ejecting: read %d is in molecule %r but '
+                                'matches none of its earlier members' % (bad[0], list(m)), cfg))
+                    break
+        if cfg['radius'] == 0:
+            comp, transitive = match_classes(vs, E)
+            if transitive and all(x[8] == c[0][8] for c in comp for x in c):
+                exp = sorted(tuple(x[0] for x in c) for c in comp)
+                if sorted(mols) != exp:
+                    out.append(('grouping-differs-from-match-classes', 'pooling_method=%d, never ejecting: molecules %r, but the pairwise '
+                                'match relation of this input is an equivalence with classes %r (both pooling methods must produce these)'
+                                % (cfg['pooling'], [list(x) for x in sorted(mols)], [list(x) for x in exp]), cfg))
+    return out
+
+
 def spec_violations(case, res):
     """Direct Python transcription of the theorems' statements, evaluated on the implementation's outputs
     (no model involved): emit-once / completion for every run; under the precondition also
@@ -808,6 +931,7 @@ def spec_violations(case, res):
             out.append(('early-eject', 'molecule %r was yielded after read %r although later read %r still matches it'
                         % (run['late'][0][1], run['late'][0][0], run['late'][0][2]) if run['late'][0][0] != 'error'
                         else 'late-join evaluation failed: %r' % (run['late'][0],), cfg))
+    out += relation_violations(case, res)
     fresh = {(c['every'], c['pooling']): partition(x) for c, x in zip(case['cfgs'], res['runs']) if x['error'] is None}
     for h, rec in zip(case.get('histories', []), res.get('histories', [])):
         cfg = h['cfg']
